@@ -23,6 +23,9 @@ package unixfsnode
 // inventory obligation "reify-tables"; here: nodes that are not dag-pb come back unchanged, nodes
 // without (decodable) UnixFS data become a link map over the same node, an unknown type is an error.
 //@ func unixfsnode.doReify
+//@ prop C03 C14
+//@ at call unixfsnode.defaultReifier#1 assert only-a-node-without-data-gets-the-generic-view-here: pbNode.Data.m != 2
+//@ at call unixfsnode.defaultReifier#2 assert or-one-whose-data-does-not-decode: err != nil
 //@ ensures not-dagpb-unchanged: !typeis(maybePBNodeRoot, "*dagpb._PBNode") ==> result == maybePBNodeRoot && err == nil
 //@ ensures no-data-is-link-map: typeis(maybePBNodeRoot, "*dagpb._PBNode") && maybePBNodeRoot.(*dagpb._PBNode).Data.m != 2 ==> err == nil && typeis(result, "*unixfsnode._PathedPBNode") && result.(*unixfsnode._PathedPBNode)._substrate == maybePBNodeRoot
 
